@@ -1,4 +1,5 @@
 import QV.C33.Lemmas
+import QV.C33.Spec
 /-
 C33 — Wrapping a program in a loop repeats its body exactly n times.
 
@@ -236,6 +237,120 @@ theorem C33_run_sound (P : List Instr) (fuel : Nat) (m0 mf : Mem) (T : List Inst
     (h : run P fuel 0 m0 [] = .done mf T) : Finishes P 0 m0 T mf := by
   obtain ⟨tr, hT, hfin⟩ := steps_of_run fuel 0 m0 [] T mf h
   simp at hT; subst hT; exact hfin
+
+/-- Execution is deterministic: a program that finishes does so with one trace only, so the
+trace in the theorems above is *the* behaviour ("exactly n times"). -/
+theorem C33_finishes_unique {P : List Instr} {pc : Nat} {m mf mf' : Mem} {T T' : List Instr}
+    (h : Finishes P pc m T mf) (h' : Finishes P pc m T' mf') : T = T' := by
+  obtain ⟨_, hs, hd⟩ := h
+  obtain ⟨_, hs', hd'⟩ := h'
+  obtain ⟨f, hf⟩ := run_of_steps hs hd
+  obtain ⟨f', hf'⟩ := run_of_steps hs' hd'
+  have e1 := hf f' []
+  have e2 := hf' f []
+  rw [Nat.add_comm f' f] at e2
+  rw [e1] at e2
+  simp only [List.nil_append, Outcome.done.injEq] at e2
+  exact e2.2
+
+private theorem step_pc_le {P : List Instr} {pc pc' : Nat} {m m' : Mem} {ev : Option Instr}
+    (h : step P pc m = .next pc' m' ev) : pc' ≤ P.length := by
+  cases hx : P[pc]? with
+  | none => simp [step, hx] at h
+  | some x =>
+    have hlt : pc < P.length := by
+      by_cases hl : pc < P.length
+      · exact hl
+      · have : P[pc]? = none := by simp; omega
+        rw [this] at hx; simp at hx
+    have hjump : ∀ t, jumpTo P t m = .next pc' m' ev → pc' ≤ P.length := by
+      intro t hj
+      simp only [jumpTo] at hj
+      cases hf : findLabel t P with
+      | none => rw [hf] at hj; simp at hj
+      | some j =>
+        rw [hf] at hj; simp only [Step.next.injEq] at hj
+        have := findLabel_lt hf; omega
+    cases x <;> simp only [step, hx] at h
+    case move d v => simp only [Step.next.injEq] at h; omega
+    case sub d v => simp only [Step.next.injEq] at h; omega
+    case label t => simp only [Step.next.injEq] at h; omega
+    case other e r => simp only [Step.next.injEq] at h; omega
+    case halt => simp at h
+    case jump t => exact hjump t h
+    case jumpWhen t cc =>
+      by_cases hc : m cc ≠ 0
+      · rw [if_pos hc] at h; exact hjump t h
+      · rw [if_neg hc] at h; simp only [Step.next.injEq] at h; omega
+    case jumpUnless t cc =>
+      by_cases hc : m cc = 0
+      · rw [if_pos hc] at h; exact hjump t h
+      · rw [if_neg hc] at h; simp only [Step.next.injEq] at h; omega
+
+private theorem steps_pc_le {P : List Instr} {pc pc' : Nat} {m m' : Mem} {tr : List Instr}
+    (h : Steps P pc m tr pc' m') (h0 : pc ≤ P.length) : pc' ≤ P.length := by
+  induction h with
+  | refl => exact h0
+  | cons hs _ ih => exact ih (step_pc_le hs)
+
+/-- a finishing run of the body from its first instruction ends exactly at `body.length` -/
+theorem bodyRuns_of_finishes {body : List Instr} {m m' : Mem} {tr : List Instr}
+    (h : Finishes body 0 m tr m') : BodyRuns body m tr m' := by
+  obtain ⟨pc', hs, hd⟩ := h
+  have hle := steps_pc_le hs (Nat.zero_le _)
+  have hjd : ∀ t, jumpTo body t m' ≠ .done := by
+    intro t; simp only [jumpTo]; split <;> simp
+  have hge : body.length ≤ pc' := by
+    by_cases hl : pc' < body.length
+    · exfalso
+      have hx : body[pc']? = some body[pc'] := by simp [hl]
+      generalize body[pc'] = x at hx
+      cases x <;> simp only [step, hx] at hd <;> (try simp at hd)
+      case jump t => exact hjd t hd
+      case jumpWhen t cc => split at hd <;> first | exact hjd t hd | simp at hd
+      case jumpUnless t cc => split at hd <;> first | exact hjd t hd | simp at hd
+    · omega
+  have : pc' = body.length := by omega
+  subst this; exact hs
+
+/-- The driver's executable `iterTrace` (Spec.lean) is sound for the relation `Iter`: whatever it
+returns is the trace of `k` genuine consecutive executions of the body. -/
+theorem C33_iterTrace_sound (body : List Instr) (c0 : MemRef) (fuel : Nat) :
+    ∀ (k : Nat) (m : Mem) (T : List Instr), iterTrace body c0 fuel k m = some T →
+      ∃ mf, Iter body c0 k m T mf := by
+  intro k
+  induction k with
+  | zero => intro m T h; simp [iterTrace] at h; subst h; exact ⟨m, Iter.zero m⟩
+  | succ k ih =>
+    intro m T h
+    simp only [iterTrace] at h
+    cases hr : run body fuel 0 m [] with
+    | done m' tr =>
+      simp only [hr] at h
+      cases hi : iterTrace body c0 fuel k (m'.set c0 (m' c0 - 1)) with
+      | none => rw [hi] at h; simp at h
+      | some trs =>
+        rw [hi] at h; simp at h; subst h
+        obtain ⟨mf, hmf⟩ := ih _ _ hi
+        obtain ⟨tr', hT, hfin⟩ := steps_of_run fuel 0 m [] tr m' hr
+        simp at hT; subst hT
+        exact ⟨mf, Iter.succ (bodyRuns_of_finishes hfin) hmf⟩
+    | halted tr => rw [hr] at h; simp at h
+    | stuck tr => rw [hr] at h; simp at h
+    | outOfFuel tr => rw [hr] at h; simp at h
+
+/-- **The driver's behavioural check means what it says.**  If, for an arbitrary program body `P`
+(in the check: the body returned by the real `wrap_in_loop`), the interpreter reports `done` with
+trace `MOVE c n :: T` where `T = iterTrace body …`, then `P` really finishes with exactly the
+events of `n` consecutive executions of `body`. -/
+theorem C33_checker_sound (P body : List Instr) (c : MemRef) (n fuel fuel' : Nat) (m0 mf : Mem)
+    (T tr : List Instr)
+    (hT : iterTrace body c fuel n (m0.set c (Int.ofNat n)) = some T)
+    (hrun : run P fuel' 0 m0 [] = .done mf tr) (htr : tr = .move c (Int.ofNat n) :: T) :
+    Finishes P 0 m0 (.move c (Int.ofNat n) :: T) mf ∧
+    ∃ mi, Iter body c n (m0.set c (Int.ofNat n)) T mi := by
+  subst htr
+  exact ⟨C33_run_sound P fuel' m0 mf _ hrun, C33_iterTrace_sound body c fuel n _ T hT⟩
 
 /-! ### What `wrap_in_loop` returns -/
 
